@@ -19,7 +19,7 @@ from ..poly import Poly
 from ..terms import Terms, mk_cmp, is_none, plain, match, V, ANY, show, \
     subterms, alternatives, stores, method_calls, lookup, truth_paths, \
     yields, reify, owner_terms, owner_views, bit_test, one_level
-from ..util import calls_in, qual, formals, returns_of, has_fact
+from ..util import calls_in, qual, formals, returns_of, has_fact, bind
 
 MC = "rig.machine_control.machine_controller"
 CTRL = MC + ":MachineController"
@@ -1288,29 +1288,166 @@ def r6_status(program, folder, rep):
               construct="status keys diff %s" % sorted(
                   keys ^ set(fields)), node=fn)
     t = unparse(fn)
-    oka = "self.read_struct_field('sv', 'vcpu_base', x, y) + " \
-          "self.structs[b'vcpu'].size * p" in t and \
-          "self.read(address, self.structs[b'vcpu'].size, x, y)" in t
+    from ..terms import fold_consts
+    SELF = ("param", "self")
+
+    def reads(T_, f_):
+        out = []
+        for c in ast.walk(f_):
+            if isinstance(c, ast.Call) and isinstance(c.func, ast.Attribute) \
+                    and c.func.attr == "read" and chain(c.func.value) == \
+                    "self":
+                try:
+                    n_ = T_.cfg.node_containing(c)
+                except AnalysisError:
+                    continue
+                b_ = bind(c, program.get(CTRL + ".read"))
+                out.append({k: plain(T_.term(v, n_)) for k, v in b_.items()})
+        return out
+    # status block of core p
+    TS = Terms(fn)
+    xs, ys, ps_ = [("param", q) for q in ("x", "y", "p")]
+    VSIZE = ("attr", ("item", ("attr", SELF, "structs"), ("const", b"vcpu")),
+             "size")
+    BASE = ("call", ("attr", SELF, "read_struct_field"),
+            (("const", "sv"), ("const", "vcpu_base"), xs, ys), ())
+    rs = reads(TS, fn)
+    oka = len(rs) == 1
+    if oka:
+        r_ = rs[0]
+        oka = r_.get("address") in (
+            ("binop", "Add", BASE, ("binop", "Mult", VSIZE, ps_)),
+            ("binop", "Add", BASE, ("binop", "Mult", ps_, VSIZE)),
+            ("binop", "Add", ("binop", "Mult", VSIZE, ps_), BASE),
+            ("binop", "Add", ("binop", "Mult", ps_, VSIZE), BASE)) and \
+            r_.get("length_bytes") == VSIZE and r_.get("x") == xs and \
+            r_.get("y") == ys
     rep.check(oka, "C14-R6", inst, "the status block of core p is read from "
               "vcpu_base + size * p, size bytes", construct="status address",
               node=fn)
+    # console buffers
     io = program.get(CTRL + ".get_iobuf_bytes")
-    t = unparse(io)
-    import struct
-    oki = "self.read(address, iobuf_size + 16, x, y)" in t and \
-        "struct.unpack('<4I', iobuf_data[:16])" in t and \
-        "iobuf += iobuf_data[16:16 + length]" in t and \
-        "while address" in t and struct.calcsize("<4I") == 16 and \
-        "address, time, ms, length = " in t
+    TI = Terms(io)
+    ix, iy, ip = [("param", q) for q in ("x", "y", "p")]
+    ISIZE = ("call", ("attr", SELF, "read_struct_field"),
+             (("const", "sv"), ("const", "iobuf_size"), ix, iy), ())
+    FIRST = ("call", ("attr", SELF, "read_vcpu_struct_field"),
+             (("const", "iobuf"), ix, iy, ip), ())
+    rs = reads(TI, io)
+    loops = [w_ for w_ in ast.walk(io) if isinstance(w_, ast.While)]
+    oki = len(rs) == 1 and len(loops) == 1
+    if oki:
+        r_ = rs[0]
+        ADDR = r_.get("address", ("?",))
+        HDR = 16
+        oki = ADDR[0] == "mu" and r_.get("length_bytes") in (
+            ("binop", "Add", ISIZE, ("const", HDR)),
+            ("binop", "Add", ("const", HDR), ISIZE)) and \
+            r_.get("x") == ix and r_.get("y") == iy
+        if oki:
+            DATA = None
+            for st_ in [plain(x_) for x_ in one_level(
+                    TI.term(ast.Name(id=ADDR[1].var, ctx=ast.Load()),
+                            TI.cfg.loop_head[id(loops[0])]))]:
+                for sub in subterms(st_):
+                    if sub[0] == "call" and sub[1] == (
+                            "attr", ("global", "struct"), "unpack") and \
+                            len(sub[2]) == 2:
+                        DATA = sub
+            alts = [plain(x_) for x_ in one_level(ADDR)]
+            oki = FIRST in alts and DATA is not None and \
+                DATA[2][0] == ("const", "<4I") and \
+                DATA[2][1][0] == "item" and \
+                DATA[2][1][2] == ("slice", ("const", None), ("const", HDR),
+                                  ("const", None)) and \
+                ("comp", DATA, 0) in alts and len(alts) == 2
+            # the loop runs while the next pointer is non-zero
+            wn = [n_ for n_ in TI.cfg.nodes if n_.kind == "assume" and
+                  n_.polarity and not any(_inside(n_.ast, st_)
+                                          for st_ in loops[0].body) and
+                  _inside(n_.ast, loops[0])]
+            oki = oki and len(wn) == 1 and plain(TI.cond(
+                wn[0].ast, wn[0], True)[0]) in (
+                    plain(ADDR), mk_cmp("Eq", plain(ADDR), ("const", 0)))
+            # what is appended: data[16:16 + length]
+            if oki:
+                RAW = DATA[2][1][1]
+                LEN = ("comp", DATA, 3)
+                app = []
+                for b_ in TI.binds:
+                    if _inside(b_.node.ast, loops[0]) and \
+                            b_.mode in ("aug", "assign"):
+                        v_ = plain(TI._bind_term(b_))
+                        if v_[0] == "binop" and v_[1] == "Add" and \
+                                v_[3][0] == "item" and v_[3][1] == RAW:
+                            app.append(v_[3][2])
+                oki = app in ([("slice", ("const", HDR), ("binop", "Add", (
+                    "const", HDR), LEN), ("const", None))],
+                    [("slice", ("const", HDR), ("binop", "Add", LEN, (
+                        "const", HDR)), ("const", None))])
     rep.check(oki, "C14-R6", qual(io), "console buffers: read header + "
               "iobuf_size, header '<4I' (next, time, ms, length), take "
               "[16:16+length], follow next until 0",
               construct="iobuf walk", node=io)
+    # router counters
     rd = program.get(CTRL + ".get_router_diagnostics")
-    t = unparse(rd)
+    TR = Terms(rd)
+    rx, ry = [("param", q) for q in ("x", "y")]
     base = folder.name(CONSTS, "SPINNAKER_RTR_BASE")
-    okr = "struct.unpack('<16I', data)" in t and \
-        "self.read(%d, 64, x=x, y=y)" % (base + 0x300) in t
+    nfields = None
+    for st_ in ast.walk(rd._module.tree):
+        if isinstance(st_, ast.Call) and call_name(st_)[0] == "namedtuple" \
+                and len(st_.args) == 2 and \
+                isinstance(st_.args[0], ast.Constant) and \
+                st_.args[0].value == "RouterDiagnostics":
+            v_ = st_.args[1]
+            if isinstance(v_, (ast.List, ast.Tuple)):
+                nfields = len(v_.elts)
+            elif isinstance(v_, ast.Constant) and isinstance(v_.value, str):
+                nfields = len(v_.value.replace(",", " ").split())
+    NF = ("call", ("global", "len"),
+          (("attr", ("global", "RouterDiagnostics"), "_fields"),), ())
+
+    def nf(t):
+        if not isinstance(t, tuple):
+            return t
+        if t == NF:
+            return ("const", nfields)
+        if t and t[0] == "const":
+            return t
+        return tuple(nf(x) for x in t)
+    menv = folder.module_env(MC)
+
+    def ev(e_):
+        return folder.eval(e_, menv, rd._module)
+    rs = reads(TR, rd)
+    okr = len(rs) == 1 and nfields == 16
+    if okr:
+        r_ = rs[0]
+        okr = fold_consts(nf(r_.get("address", ("?",))), ev) == (
+            "const", base + 0x300) and fold_consts(
+                nf(r_.get("length_bytes", ("?",))), ev) == ("const", 64) \
+            and r_.get("x") == rx and r_.get("y") == ry
+        rets_ = [plain(TR.term(r.value)) for r in returns_of(rd)
+                 if r.value is not None]
+        okr = okr and len(rets_) == 1
+        if okr:
+            rt_ = rets_[0]
+            up = [st_ for st_ in subterms(rt_) if st_[0] == "call" and
+                  st_[1] == ("attr", ("global", "struct"), "unpack")]
+            okr = len(up) == 1 and rt_ in (
+                ("call", ("global", "RouterDiagnostics"),
+                 (("star", up[0]),), ()),
+                ("call", ("attr", ("global", "RouterDiagnostics"), "_make"),
+                 (up[0],), ()))
+            if okr:
+                f_ = fold_consts(nf(up[0][2][0]), ev)
+                if f_[0] == "call" and f_[1][0] == "attr" and \
+                        f_[1][2] == "format" and f_[1][1][0] == "const" and \
+                        len(f_[2]) == 1 and f_[2][0][0] == "const":
+                    f_ = ("const", f_[1][1][1].format(f_[2][0][1]))
+                okr = f_ == ("const", "<16I") and up[0][2][1][0] == "call" \
+                    and up[0][2][1][1] == ("attr", SELF, "read")
     rep.check(okr, "C14-R6", qual(rd), "router counters: 16 words (64 "
               "bytes) from router base + 0x300 of that chip",
               construct="router diagnostics", node=rd)
